@@ -40,6 +40,7 @@ def run(ctx):
     r8_decode_guards(ctx)
     r9_headers_only_with_headers(ctx)
     r10_filters_stateless(ctx)
+    r11_equality(ctx)
 
 
 def r1_complete(ctx, dense, sparse):
@@ -366,6 +367,26 @@ def r10_filters_stateless(ctx):
     ctx.floor("C13.R10", "row filter methods", n, 6)
 
 
+def r11_equality(ctx):
+    ctx.rule("C13.R11", "a row view equals the eager list/dict it describes whatever its cells hold: Dense_.__eq__ / Sparse_.__eq__ compare list(...) / dict(...) of the "
+                        "row (cells are compared with ==, never hashed -- a list- or dict-valued cell must not make a row unequal to itself)")
+    n = 0
+    for cname, builder in (("Dense_", "list"), ("Sparse_", "dict")):
+        c = ctx.model.cls(PRIM, cname)
+        eq = c.methods.get("__eq__")
+        if eq is None:
+            continue
+        n += 1
+        ctx.touch(PRIM, f"{cname}.__eq__")
+        hashed = [k for k in ast.walk(eq) if isinstance(k, ast.Call) and call_name(k) in ("set", "frozenset", "hash", "sorted", "Counter")]
+        cmps = [k for k in ast.walk(eq) if isinstance(k, ast.Compare) and len(k.ops) == 1 and isinstance(k.ops[0], ast.Eq)]
+        elementwise = any(isinstance(k, ast.Call) and call_name(k) == "map" and k.args and unparse(k.args[0]) in ("eq", "operator.eq") for k in ast.walk(eq))
+        ok = not hashed and (any(isinstance(k.left, ast.Call) and call_name(k.left) == builder for k in cmps) or elementwise)
+        ctx.ob("C13.R11", PRIM, f"{cname}.__eq__", eq, f"equality compares the cells pairwise ({builder}(<row>) == {builder}(<other>) or all(map(eq, ..))) and hashes / orders nothing", ok,
+               detail={"hashing or ordering calls": [unparse(k)[:60] for k in hashed]}, stmt=f"{cname}.__eq__")
+    ctx.floor("C13.R11", "__eq__ of the row base classes", n, 2)
+
+
 def _empty_marker(tree):
     from ..mutate import find_def
     f = find_def(tree, "DropRows.make_drop_row_args")
@@ -379,6 +400,7 @@ def _empty_marker(tree):
 
 
 CONTROLS = [
+    ("sparse rows compared through frozenset", PRIM, M.replace_expr("Sparse_.__eq__", "dict(self.items()) == dict(o.items())", "frozenset(self.items()) == frozenset(o.items())"), "C13.R11"),
     ("getitem catches ValueError only", ROWS, M.replace_stmt("LazyDense.__getitem__", lambda st: isinstance(st, ast.Try), "try:\n    return enc[key](val)\nexcept ValueError:\n    if val in ['?', '']: return None\n    raise"), "C13.R8"),
     ("empty header map for headerless rows", ROWS, _empty_marker, "C13.R9"),
     ("EncodeRows keeps the resolved encoders", ROWS, M.insert_before("EncodeRows.filter", lambda st: isinstance(st, ast.Return) and "EncodeDense" in ast.unparse(st), "self._encoders = enc"), "C13.R10"),
